@@ -261,6 +261,9 @@ def run_server(out, tier, seed):
                 else:
                     code, arg = SRV_ERR.get(o.get("name"), 99), 0
                     hist["refused:" + str(o.get("name"))] = hist.get("refused:" + str(o.get("name")), 0) + 1
+                    if code == 6:
+                        # refused because the topic is full: the model's operation for it (no partition is chosen, the rotation stays)
+                        rop = C("SendFull", rop.args[0], rop.args[1])
                 pairs.append((rop, (code, arg, changed)))
             elif k == "add":
                 pairs.append((C("AddParts", d["n"]), (5 if o.get("r") == "ok" else 4, 0, [])))
@@ -270,9 +273,9 @@ def run_server(out, tier, seed):
                 if o.get("r") != "ok":
                     broken = (i, "the restart fails", o)
                     break
-                pairs.append((C("AddParts", 0), (7, 0, [])))
+                pairs.append((C("Restart"), (7, 0, [])))
             else:
-                pairs.append((C("DelParts", 0), (8 if o.get("r") == "ok" else 99, 0, [])))
+                pairs.append((C("Purge"), (8 if o.get("r") == "ok" else 99, 0, [])))
             prev = after
         if broken:
             out.violation("srv-%s-%d" % (t["id"], broken[0]), {"kind": "spec-monitor", "mode": "srv", "trace": {"id": t["id"], "cfg": t["cfg"], "ops": t["ops"][:broken[0] + 1]},
